@@ -273,6 +273,10 @@ func (p *parser) setLeafNodeParsers() {
 }
 
 func (p *parser) check() error {
+	if len(p.tokens) == 0 {
+		return p.invalidExprErr(0)
+	}
+
 	prefixNotation := !p.isInfixNotation()
 
 	last := len(p.tokens) - 1
@@ -434,6 +438,10 @@ func (p *parser) errWithPos(err error, idx int) error {
 
 func (p *parser) pos(i int) string {
 	A := []rune(p.source)
+
+	if len(A) == 0 {
+		return ""
+	}
 
 	if i < 0 || i >= len(A) {
 		i = 0
